@@ -738,6 +738,32 @@ func ruleGeneratedNaNUnsigned(w *World, r *RuleResult) {
 					r.ok(key, w.instrPos(call), "tabled: "+reason, false)
 					continue
 				}
+				// a helper the tabled function was split into, which is handed the sign as a parameter: the
+				// conjunction is re-checked on the argument of every call, in the tabled function
+				if owner := w.ownerIn(f, sortedKeys(nanSignTable)); owner != "" && owner != name {
+					if prm, isP := bad.(*ssa.Store).Val.(*ssa.Parameter); isP {
+						idx := -1
+						for i, q := range f.Params {
+							if q == prm {
+								idx = i
+							}
+						}
+						callers := w.callersOf(f)
+						all := idx >= 0 && len(callers) > 0
+						for _, cs := range callers {
+							if !all {
+								break
+							}
+							if w.shortName(cs.Parent()) != owner || idx >= len(cs.Common().Args) || !w.powSignValueIsGuarded(cs.Parent(), cs.Common().Args[idx]) {
+								all = false
+							}
+						}
+						if all {
+							r.ok(key, w.instrPos(call), "tabled (for "+owner+", which hands the sign to this helper): "+nanSignTable[owner], false)
+							continue
+						}
+					}
+				}
 			}
 			if bad == nil {
 				r.ok(key, w.instrPos(call), "no store of the destination's sign follows the NaN on any path", true)
@@ -765,11 +791,15 @@ var nanSignTable = map[string]string{
 // powSignIsGuarded: the stored sign is a conjunction that still contains the tests the tabled invariant
 // relies on: y.Form compared with Finite, the fraction's IsZero, and the integer part's low bit.
 func (w *World) powSignIsGuarded(f *ssa.Function, st *ssa.Store) bool {
+	return w.powSignValueIsGuarded(f, st.Val)
+}
+
+func (w *World) powSignValueIsGuarded(f *ssa.Function, signVal ssa.Value) bool {
 	need := map[string]bool{"form": false, "frac": false, "bit": false}
 	// the conjunction is a short-circuit chain: a phi whose edges are the constant false (coming from the
 	// blocks that test the earlier conjuncts) and the value of the last conjunct
 	var exprs []*Expr
-	if phi, ok := st.Val.(*ssa.Phi); ok {
+	if phi, ok := signVal.(*ssa.Phi); ok {
 		for i, ed := range phi.Edges {
 			if k, isK := ed.(*ssa.Const); isK {
 				if constBoolTrue(k) {
@@ -784,7 +814,7 @@ func (w *World) powSignIsGuarded(f *ssa.Function, st *ssa.Store) bool {
 			exprs = append(exprs, w.exprOf(f, ed))
 		}
 	} else {
-		exprs = append(exprs, w.exprOf(f, st.Val))
+		exprs = append(exprs, w.exprOf(f, signVal))
 	}
 	e := &Expr{Op: "and", Args: exprs}
 	e.walk(func(x *Expr) bool {
